@@ -112,8 +112,7 @@ TRUSTED = ["AArch64 instruction semantics as implemented in engine/easm_a64.py (
 
 
 def annotate(chk):
-    chk.bounds = [b for b in chk.bounds if "AArch64 and ARMv6-M" not in b] + BOUNDS + [
-        "NOT covered: ARMv6-M assembly back end (no interpreter for that ISA) - stated in DESIGN.md"]
+    chk.bounds = [b for b in chk.bounds if "AArch64 and ARMv6-M" not in b] + BOUNDS
     chk.trusted = list(chk.trusted) + TRUSTED
 
 
